@@ -31,6 +31,7 @@ func (s c11S) Less(j interface{}) bool { return s.K < j.(c11S).K }
 type c11Cycle struct {
 	Keys  []int  `json:"keys"`
 	Drain string `json:"drain"` // none, one, half, all, all+extra
+	Twice bool   `json:"finalise_called_twice,omitempty"`
 }
 
 type c11Hist struct {
@@ -50,17 +51,29 @@ func (h c11Hist) word() string {
 			mode = "disk"
 		}
 		w += fmt.Sprintf("%s:%d:%s;", mode, len(c.Keys), c.Drain)
+		if c.Twice {
+			w += "F2;"
+		}
 	}
 	return w
 }
 
 func c11GenHist(rng *rand.Rand, maxCycles int) c11Hist {
 	h := c11Hist{Chunk: []int{1, 2, 3, 7, 64}[rng.Intn(5)], Concurrent: rng.Intn(2) == 0, Struct: rng.Intn(2) == 0, AutoClear: rng.Intn(2) == 0}
+	big := rng.Intn(20) == 0
+	if big { // chunk sizes past the sizes at which slices are usually pre-sized or grown in steps
+		h.Chunk = []int{1025, 1500, 2100, 4097}[rng.Intn(4)]
+	}
 	n := 1 + rng.Intn(maxCycles)
+	if big && n > 3 {
+		n = 3
+	}
 	for i := 0; i < n; i++ {
 		c := h.Chunk
 		cnt := []int{0, 1, c - 1, c, c + 1, 2 * c, 3*c + 2, rng.Intn(8*c + 1)}[rng.Intn(8)]
-		if cnt > 400 {
+		if big {
+			cnt = []int{c - 1, c, c + 1, c + 1 + rng.Intn(c/2), 2 * c, 2*c + 1 + rng.Intn(c/2)}[rng.Intn(6)]
+		} else if cnt > 400 {
 			cnt = 400
 		}
 		keys := make([]int, cnt)
@@ -68,7 +81,7 @@ func c11GenHist(rng *rand.Rand, maxCycles int) c11Hist {
 		for k := range keys {
 			keys[k] = rng.Intn(span) - span/2
 		}
-		h.Cycles = append(h.Cycles, c11Cycle{Keys: keys, Drain: []string{"none", "one", "half", "all", "all", "all+extra"}[rng.Intn(6)]})
+		h.Cycles = append(h.Cycles, c11Cycle{Keys: keys, Drain: []string{"none", "one", "half", "all", "all", "all+extra"}[rng.Intn(6)], Twice: rng.Intn(8) == 0})
 	}
 	return h
 }
@@ -174,6 +187,11 @@ func c11RunHist(r *obs.Run, h c11Hist, scratch string, checkResidue bool) (res c
 		}
 		if err := m.Finalise(); err != nil {
 			return fail("finalise-error", when("Finalise returned "+err.Error()))
+		}
+		if cyc.Twice { // a second Finalise before anything is pulled changes nothing
+			if err := m.Finalise(); err != nil {
+				return fail("finalise-error", when("a second Finalise returned "+err.Error()))
+			}
 		}
 		if len(cyc.Keys) >= h.Chunk {
 			res.spills++
